@@ -1119,11 +1119,13 @@ bool Session::send_process(Message *msg) // called from the connection (possibly
 	catch (f8Exception& e)
 	{
 		slout_error << e.what();
+		_batchmsgs_buffer.clear(); // nothing of an interrupted batch may be sent later
 		return false;
 	}
 	catch (Poco::Exception& e)
 	{
 		slout_error << e.displayText();
+		_batchmsgs_buffer.clear();
 		return false;
 	}
 
